@@ -1,9 +1,63 @@
 package specgen
 
 // FamilyCases returns the purpose-built run-time families (router,
-// parameter, schema, response, security) as generator inputs, for the
-// stage-G properties that want a broad corpus (C01, C12).
+// parameter, schema, response, security, cors, kitchen sinks) as generator
+// inputs for the stage-G properties that want a broad corpus (C01, C12,
+// C15). Every case marked Safe must generate and compile: C01 re-checks on
+// every run that the safe sub-dialect is still clean.
 func FamilyCases(seed int64, thorough bool) []Case {
+	n := 12
+	if thorough {
+		n = 120
+	}
 	var out []Case
+	out = append(out, KitchenSinks()...)
+	out = append(out, RouterCases(seed, n)...)
+	out = append(out, ParamCases(seed, n/2)...)
+	out = append(out, SchemaCases(seed, n, false)...)
+	out = append(out, ResponseCases(seed, n)...)
+	out = append(out, CorsCases(seed, n)...)
+	for i, c := range SecurityCases(seed, thorough) {
+		if i%4 == 0 {
+			out = append(out, c)
+		}
+	}
+	out = append(out, ExtraCases()...)
+	return out
+}
+
+// ExtraCases: fixed cells for findings that the matrix dimensions do not
+// span (found while building the run-time families).
+func ExtraCases() []Case {
+	var out []Case
+	add := func(id string, d *Doc, fl Flags) {
+		out = append(out, Case{ID: "X=" + id, Family: "extra", Spec: d.Root, Flags: fl, Label: map[string]string{"X": id}})
+	}
+	{
+		d := NewDoc("x")
+		d.Op("/t", "get", M{"parameters": L{ParamNode("a", "query", true, Arr(Prim("integer", "int32"))), ParamNode("b", "query", true, Arr(Prim("integer", "int64")))}})
+		add("two-required-array-query-params-client", d, Flags{Client: true})
+		d2 := NewDoc("x")
+		d2.Op("/t", "get", M{"parameters": L{ParamNode("a", "query", true, Arr(Prim("integer", "int32"))), ParamNode("b", "query", true, Arr(Prim("integer", "int64")))}})
+		add("two-required-array-query-params-noclient", d2, Flags{DoNotEdit: true})
+	}
+	{
+		d := NewDoc("x")
+		d.Comp("schemas", "Holder", M{"allOf": L{Obj([]string{"a"}, M{"a": Prim("string", ""), "nested": Obj(nil, M{"n": Prim("string", "")})}), Obj(nil, M{"b": Prim("string", "")})}})
+		d.Op("/t", "post", M{"requestBody": M{"content": JSONContent(Ref("schemas", "Holder"))}})
+		add("allof-inline-member-with-nested-inline-object", d, Flags{DoNotEdit: true})
+	}
+	{
+		d := NewDoc("x")
+		d.Comp("schemas", "Holder", Obj([]string{"v_1"}, M{"v_1": Prim("string", ""), "v_2": Prim("string", "")}))
+		d.Op("/t", "post", M{"requestBody": M{"content": JSONContent(Ref("schemas", "Holder"))}})
+		add("property-names-differing-in-digit-suffix", d, Flags{DoNotEdit: true})
+	}
+	{
+		d := NewDoc("x")
+		d.Comp("headers", "H", M{"schema": Arr(Prim("string", ""))})
+		d.Op("/t", "get", M{"responses": M{"200": M{"description": "ok", "headers": M{"X-List": Ref("headers", "H")}}}})
+		add("array-typed-component-header", d, Flags{DoNotEdit: true})
+	}
 	return out
 }
